@@ -144,6 +144,39 @@ func c19AfterBufferReuse(c *core.Ctx, class, kind string, in []byte, outs []entr
 		}
 	}
 	c.Bucket("agree-after-buffer-reuse/" + class)
+	// the same after the caller has overwritten what each value's serialiser handed out (a value
+	// that hands out its own storage changes, its twin from another entry point does not)
+	var again [][]byte
+	for _, o := range acc {
+		v := reflect.ValueOf(o.val)
+		if isBytesType(v) {
+			return
+		}
+		b, ok := reserialise(v)
+		if !ok {
+			again = append(again, nil)
+			continue
+		}
+		for i := range b {
+			b[i] ^= 0x3C
+		}
+		b2, ok := reserialise(v)
+		if !ok {
+			b2 = nil
+		}
+		again = append(again, append([]byte{}, b2...))
+	}
+	for k := 1; k < len(acc); k++ {
+		if again[0] == nil || again[k] == nil {
+			continue
+		}
+		if !bytes.Equal(again[0], again[k]) {
+			c.Violate(acc[0].name+" <-> "+acc[k].name, "serialisation-differs-after-caller-overwrote-an-earlier-serialisation", gen.Shape{"class": class, "a": acc[0].name, "b": acc[k].name}, orig,
+				"values that serialised identically differ once the caller overwrote the bytes their serialisers had handed out: "+describeDiff(again[0], again[k]))
+			return
+		}
+	}
+	c.Bucket("agree-after-serialisation-overwritten/" + class)
 }
 
 // parser groups: entry points that read the same structure from bytes.
